@@ -155,3 +155,49 @@ package function
 //@   assigns elems(github.com/prometheus/prometheus/model/labels.Label)@l
 //@   ensures result-is-the-same-buffer: ref(result0) == ref(l) || isnil(result0)
 //@   loop 0 invariant true
+
+// ---- histogram.go: histogram_quantile (C06, C07, C18) --------------------------------------------
+// processInputSeries: one output vector per input vector, stamped with the same step - also for a
+// step without any bucket sample; the buckets of every step start empty (no carry-over between
+// steps); output ids index the output series; the quantile of step k is the k-th scalar point.
+//@ func bucketQuantile
+//@   trusted float index arithmetic and in-place sorting of the buckets (transcription of promql/quantile.go); assumed not to panic for at least two buckets
+//@   requires len(buckets) >= 2
+//@   assigns elems(function.le)
+//@ func (*histogramOperator).resetBuckets
+//@   requires o != nil
+//@   assigns elems(function.buckets)@o.seriesBuckets
+//@   ensures[C07] every-bucket-list-empty: forall j in 0..len(o.seriesBuckets) :: len(o.seriesBuckets[j]) == 0
+//@   ensures len(o.seriesBuckets) == old(len(o.seriesBuckets))
+//@   loop 0 invariant o != nil && len(o.seriesBuckets) == old(len(o.seriesBuckets)) && (forall j in 0..rangeindex+1 :: len(o.seriesBuckets[j]) == 0)
+//@ pred hopInv(o) = o != nil && o.pool != nil && o.vectorOp != nil &&
+//@     (forall j in 0..len(o.outputIndex) :: o.outputIndex[j] != nil ==> 0 <= o.outputIndex[j].outputID && o.outputIndex[j].outputID < len(o.seriesBuckets))
+//@ func (*histogramOperator).processInputSeries
+//@   requires hopInv(o) && allocated(vectors)
+//@   requires forall k in 0..len(vectors) :: len(vectors[k].SampleIDs) == len(vectors[k].Samples) && preexisting(vectors[k].SampleIDs) && (forall j in 0..len(vectors[k].SampleIDs) :: vectors[k].SampleIDs[j] < len(o.outputIndex))
+//@   ensures[C18] never-fails: result1 == nil
+//@   ensures[C06,C07,C18] one-output-vector-per-input-vector: len(result0) == len(vectors) && (forall k in 0..len(result0) :: result0[k].T == vectors[k].T)
+//@   ensures[C18] step-vectors-own-their-buffers: ownBuffers(result0, len(result0)) && sepBuffers(result0, len(result0))
+//@   ensures[C18] ids-index-the-output-series: forall k in 0..len(result0) :: len(result0[k].SampleIDs) == len(result0[k].Samples) &&
+//@       (forall j in 0..len(result0[k].SampleIDs) :: result0[k].SampleIDs[j] < len(o.seriesBuckets))
+//@   at function.bucketQuantile assert[C06] quantile-of-the-step: $q == o.scalarPoints[stepIndex]
+//@   loop 0 invariant shape0: hopInv(o) && len(o.seriesBuckets) == old(len(o.seriesBuckets)) && len(out) == rangeindex + 1 && fresh(out) && !isnil(out) && ref(out) != ref(vectors) && allocated(vectors) &&
+//@       (forall k in 0..len(vectors) :: len(vectors[k].SampleIDs) == len(vectors[k].Samples) && preexisting(vectors[k].SampleIDs) && (forall j in 0..len(vectors[k].SampleIDs) :: vectors[k].SampleIDs[j] < len(o.outputIndex)))
+//@   loop 0 invariant[C18] step-vectors-own-their-buffers0: ownBuffers(out, len(out)) && sepBuffers(out, len(out))
+//@   loop 0 invariant out0: forall k in 0..len(out) :: out[k].T == vectors[k].T && len(out[k].SampleIDs) == len(out[k].Samples) &&
+//@       (forall j in 0..len(out[k].SampleIDs) :: out[k].SampleIDs[j] < len(o.seriesBuckets))
+//@   loop 1 invariant shape1: hopInv(o) && len(o.seriesBuckets) == old(len(o.seriesBuckets)) && len(out) == stepIndex && fresh(out) && !isnil(out) && ref(out) != ref(vectors) && allocated(vectors) &&
+//@       0 <= stepIndex && stepIndex < len(vectors) && vector.T == vectors[stepIndex].T && sameslice(vector.SampleIDs, vectors[stepIndex].SampleIDs) && sameslice(vector.Samples, vectors[stepIndex].Samples) &&
+//@       (forall k in 0..len(vectors) :: len(vectors[k].SampleIDs) == len(vectors[k].Samples) && preexisting(vectors[k].SampleIDs) && (forall j in 0..len(vectors[k].SampleIDs) :: vectors[k].SampleIDs[j] < len(o.outputIndex)))
+//@   loop 1 invariant[C18] step-vectors-own-their-buffers1: ownBuffers(out, len(out)) && sepBuffers(out, len(out))
+//@   loop 1 invariant out1: forall k in 0..len(out) :: out[k].T == vectors[k].T && len(out[k].SampleIDs) == len(out[k].Samples) &&
+//@       (forall j in 0..len(out[k].SampleIDs) :: out[k].SampleIDs[j] < len(o.seriesBuckets))
+//@   loop 2 invariant shape2: hopInv(o) && len(o.seriesBuckets) == old(len(o.seriesBuckets)) && len(out) == stepIndex && fresh(out) && !isnil(out) && ref(out) != ref(vectors) && allocated(vectors) &&
+//@       0 <= stepIndex && stepIndex < len(vectors) && vector.T == vectors[stepIndex].T &&
+//@       (forall k in 0..len(vectors) :: len(vectors[k].SampleIDs) == len(vectors[k].Samples) && preexisting(vectors[k].SampleIDs) && (forall j in 0..len(vectors[k].SampleIDs) :: vectors[k].SampleIDs[j] < len(o.outputIndex)))
+//@   loop 2 invariant out2: forall k in 0..len(out) :: out[k].T == vectors[k].T && len(out[k].SampleIDs) == len(out[k].Samples) &&
+//@       (forall j in 0..len(out[k].SampleIDs) :: out[k].SampleIDs[j] < len(o.seriesBuckets))
+//@   loop 2 invariant[C18] step-vectors-own-their-buffers2: ownBuffers(out, len(out)) && sepBuffers(out, len(out)) &&
+//@       (forall k in 0..len(out) :: (ref(out[k].SampleIDs) != ref(step.SampleIDs) || ref(step.SampleIDs) == 0) && (ref(out[k].Samples) != ref(step.Samples) || ref(step.Samples) == 0))
+//@   loop 2 invariant step2: step.T == vector.T && len(step.SampleIDs) == len(step.Samples) && fresh(step.SampleIDs) && fresh(step.Samples) && allocated(step.SampleIDs) && allocated(step.Samples) &&
+//@       (forall j in 0..len(step.SampleIDs) :: step.SampleIDs[j] < len(o.seriesBuckets))
